@@ -140,6 +140,9 @@ def findall(lst: list[dict], key: str, value: Any) -> list[dict]:
     """
     key = key.lower()
     # check for the key first - accessing a missing key creates it in a Mapfile dict
+    if not isinstance(value, (list, tuple, set)):
+        # a single value - compare for equality rather than a substring match
+        value = [value]
     return [item for item in lst if key in item and item[key] and item[key] in value]
 
 
